@@ -13,6 +13,16 @@ TEXT = {
          "set construction order/duplicate-insensitive, contains/containsAll/containsAny/isEmpty, in/has/getAttr/is, like = declarative matcher for all patterns "
          "and strings); the model is the definition: any disagreement with Evaluator::interpret on the generated stream is a failing input.",
          "proof over a hand-written model; correspondence sampled through 6 routes (text, AST, EST, eval_expression, when, unless); error classes only"),
+ "C12": ("Lean theorems over an abstract model of the formatter: a Wadler-style document algebra whose renderer is proved to insert only whitespace for EVERY "
+         "flat/break decision (render_tokens) and never to let a `//` comment swallow a token when comments are followed by hardlines (render_comment_safe); the mirror of "
+         "doc.rs' add_comment rule and of its Doc impls for the expression-CST core, proved to emit exactly the source tokens and comments in order except trailing commas, "
+         "which are dropped with their comments (toDoc_tokens_partial, toDoc_comments_partial; the loss is exhibited by lost_comment_example and removed by toDocFixed_comments); "
+         "an abstract pipeline theorem (pipeline_correct): atom-preserving + output a function of (tokens, config) on comment-free text => same parse, comments preserved, "
+         "idempotent sans comments, re-format preserves both. The statement itself is evaluated on the real formatter by a property-directed run: a comment at each token "
+         "boundary in turn, width/indent grid, idempotence, re-formatting; the formatter's lexer/comment attachment is diffed against its Lean mirror.",
+         "the theorems cover the abstract layout algebra + the expression-CST core (resolved tokens) only; the rest of doc.rs (Policy/scope/annotations/conditions), the span "
+         "lookups of utils.rs, remove_empty_lines, the `pretty` crate and string-level re-lexing are covered by the differential/property run only (sampled); "
+         "known findings C12-F1..F4 (comments on trailing commas / on the scope's `)` after a trailing comma are dropped) are listed in known_findings.jsonl"),
  "C07": ("Lean theorems over mirrors of the decimal/ip/datetime/duration parsers and operations (written-out recognisers + checked arithmetic); the model is the "
          "definition of 'exact': any disagreement with the real extension functions on generated strings/values is a failing input.",
          "proof over a hand-written model; std::net / chrono / regex are inside the implementation under check and are re-defined in the model"),
